@@ -24,13 +24,20 @@ func genWFCase(rt *rapid.T, lfBias bool) *FmtCase {
 }
 
 func genHookScript(rt *rapid.T, vc *valConfig) []*Op {
-	oc := &opConfig{bytesAlpha: vc.bytesAlpha, ioSide: true, prints: true, maxTok: 3}
+	// what the hook prints besides the error itself: any value that is not
+	// an error (the hook would be re-entered for it without end), including
+	// values whose methods panic
+	av := &valConfig{bytesAlpha: vc.bytesAlpha, maxDepth: 1, noErrors: true, noPointers: true, noRedactable: true}
+	oc := &opConfig{bytesAlpha: vc.bytesAlpha, ioSide: true, prints: true, maxTok: 3,
+		args: func(rt *rapid.T, label string) []*Val { return av.genArgs(rt, 2, false, 2) }}
 	n := rapid.IntRange(0, 4).Draw(rt, "nhook")
 	ops := []*Op{}
 	for i := 0; i < n; i++ {
-		switch rapid.IntRange(0, 5).Draw(rt, "hk") {
+		switch rapid.IntRange(0, 6).Draw(rt, "hk") {
 		case 0:
 			ops = append(ops, &Op{K: "Verb"})
+		case 6:
+			ops = append(ops, &Op{K: "Cause"})
 		case 1, 2:
 			ops = append(ops, &Op{K: "ErrText"})
 		default:
